@@ -275,6 +275,117 @@ async def run_case(b: Bench, item, inst: Inst, dev: str, report, watchdog: float
     return False
 
 
+HIST_ENDPOINTS = {"L>R": ("L", "a1"), "R>L": ("a1", "L"), "R>R:same-connector": ("a1", "a2"),
+                  "R>R:other-connector": ("a1", "b1")}
+
+
+def hist_shape(events) -> str:
+    return ".".join(("T%s" % ("rw" if e["w"] else "ro")) if e["ev"] == "T" else "L%d" % e["i"] for e in events)
+
+
+async def run_history(b: Bench, item, inst: Inst, report, watchdog: float = 60.0):
+    """One history of RemoteFSTransferHistory on the real data manager: the same registered source is
+    transferred to fresh paths L1, L2, L3 of ONE destination location; `L i` removes Li there and calls
+    invalidate_location.  After every transfer: the new destination meets the contract of a single
+    transfer, and every older copy the data manager still reports as available dereferences to the
+    source tree.  Returns True when all of it holds."""
+    from streamflow.core.data import DataType
+    hc, events = item["hcase"], item["hist"]
+    b.k += 1
+    base = "%s/h%d" % (b.W, b.k)
+    s, d = HIST_ENDPOINTS[hc["pair"]]
+    sroot, droot = b.roots[s], b.roots[d]
+    name = inst.n["SRCNAME"]
+    src_path = "%s/in/%s" % (base, name)
+    os.makedirs(FR.real(sroot, base + "/in"))
+    os.makedirs(FR.real(droot, base), exist_ok=True)
+    build_source(FR.real(sroot, src_path), item["source"], inst, src_path)
+    dm = b.ctx.data_manager
+    dm.register_path(location=b.locs[s], path=src_path, relpath=src_path, data_type=DataType.PRIMARY)
+    exp = expected_tree(item["tree"], inst)
+    L = lambda i: "%s/out%d/%s" % (base, i, name)
+    conns = [b.connA, b.connB]
+    for c in conns:
+        del c.commands[:]
+    lost = set()
+    verdict = None
+
+    def registered(path):
+        regs = dm.get_data_locations(path=path, deployment=b.locs[d].deployment, location_name=b.locs[d].name)
+        return [x for x in regs if x.path == path and x.data_type in (DataType.PRIMARY, DataType.SYMBOLIC_LINK)]
+
+    for n, e in enumerate(events):
+        if e["ev"] == "L":
+            p = FR.real(droot, L(e["i"]))
+            if os.path.islink(p) or not os.path.isdir(p):
+                if os.path.lexists(p):
+                    os.unlink(p)
+            else:
+                shutil.rmtree(p)
+            try:
+                dm.invalidate_location(b.locs[d], L(e["i"]))
+            except Exception as ex:  # noqa
+                verdict = ("error", "invalidate_location(%s) raised %s: %s" % (L(e["i"]), type(ex).__name__, ex), n)
+                break
+            lost.add(e["i"])
+            continue
+        i, w = e["i"], e["w"]
+        err = None
+        try:
+            await asyncio.wait_for(dm.transfer_data(src_location=b.locs[s], src_path=src_path,
+                                                    dst_locations=[b.locs[d]], dst_path=L(i), writable=w), watchdog)
+        except FR.ShellWouldBlock as ex:
+            err = ("hang", "a remote command with an unterminated quote: %s" % ex)
+        except (asyncio.TimeoutError, TimeoutError):
+            err = ("timeout", "transfer_data did not return within %ss" % watchdog)
+            await b.reset()
+        except Exception as ex:  # noqa - an observation
+            err = ("error", "%s: %s" % (type(ex).__name__, str(ex)[:400]))
+        if err is not None:
+            verdict = (err[0], "step %d (transfer to L%d): %s" % (n + 1, i, err[1]), n)
+            break
+        got, links = deref_snapshot(droot, L(i))
+        diff = None
+        if got.get("", {}).get("kind") == "dangling":
+            tgt = os.readlink(FR.real(droot, L(i))) if os.path.islink(FR.real(droot, L(i))) else "?"
+            diff = ("dangling-link", "L%d is a dangling symbolic link to %s%s" % (
+                i, tgt, " and is registered as available" if registered(L(i)) else ""))
+        if diff is None:
+            diff = compare(exp, got)
+        outside = [(l, t) for l, t in links if t is None or not (t == L(i) or t.startswith(L(i) + "/"))]
+        if diff is None and w and outside:
+            diff = ("symlink", "writable destination has symbolic links leaving the copy: %s" % outside[:5])
+        if diff is None:
+            good = [x for x in registered(L(i)) if x.available.is_set()]
+            if not good:
+                diff = ("registration", "no available data location for L%d" % i)
+        if diff is None:     # older copies: whatever is still reported as available must be good
+            for j in range(1, i):
+                if registered(L(j)):
+                    g2, _ = deref_snapshot(droot, L(j))
+                    d2 = compare(exp, g2)
+                    if d2 is not None:
+                        diff = ("stale-available-copy", "L%d is still registered as available but: %s" % (j, d2[1]))
+                        break
+        if diff is not None:
+            verdict = (diff[0], "step %d (%s transfer to L%d): %s" % (n + 1, "writable" if w else "read-only", i, diff[1]), n)
+            break
+    cmds = [c for conn in conns for c in conn.commands][-12:]
+    for r in set(b.roots.values()):
+        shutil.rmtree(FR.real(r, base), ignore_errors=True)
+    if verdict is None:
+        return True
+    clause, msg, n = verdict
+    label = "retransfer-after-invalidate" if lost else "retransfer" if any(e["ev"] == "T" for e in events[:n]) else "first-transfer"
+    shape = hist_shape(events[:n + 1])
+    detail = {"hcase": hc, "hist": events, "failed_at": n, "source": item["source"], "tree": item["tree"],
+              "name_class": inst.ncls, "content_class": inst.ccls, "clause": clause, "message": msg,
+              "remote_commands": cmds}
+    report("transfer-history:%s:%s:%s:%s:%s" % (label, hc["pair"], hc["src"], shape, clause), detail,
+           "history %s of %s %s: %s" % (hist_shape(events), hc["pair"], hc["src"], msg))
+    return False
+
+
 def pick_deviation(seed, key: str, thorough: bool):
     r = random.Random("%s/%s" % (seed, key))
     if r.random() < 0.6:
@@ -282,9 +393,13 @@ def pick_deviation(seed, key: str, thorough: bool):
     return "plain", ("mib" if thorough and r.random() < 0.3 else "binary")
 
 
-async def run_items(b: Bench, items, seed, thorough, report, count):
+async def run_items(b: Bench, items, seed, thorough, report, count, count_hist):
     import json
     for it in items:
+        if "hcase" in it:
+            await run_history(b, it, Inst("plain", "text", seed), report)
+            count_hist(it)
+            continue
         key = json.dumps(it["case"], sort_keys=True)
         ok = await run_case(b, it, Inst("plain", "text", seed), "plain", report)
         count(it["case"], "plain", "text")
@@ -311,10 +426,18 @@ def worker(args):
                   "content:" + ccls, "writable:%s" % case["writable"], "n:%d" % case["n"]):
             out["by"][k] = out["by"].get(k, 0) + 1
 
+    def count_hist(it):
+        n = sum(1 for e in it["hist"] if e["ev"] == "T")
+        out["cases"] += n
+        out["keys"].add("history:%s:%s:%s" % (it["hcase"]["pair"], it["hcase"]["src"], hist_shape(it["hist"])))
+        for k in ("histories", "history-transfers:%d" % n, "history-pair:" + it["hcase"]["pair"],
+                  "history-with-invalidation:%s" % any(e["ev"] == "L" for e in it["hist"])):
+            out["by"][k] = out["by"].get(k, 0) + (n if k.startswith("history-transfers") else 1)
+
     async def main():
         b = await Bench(scratch, template).start()
         try:
-            await run_items(b, items, seed, thorough, report, count)
+            await run_items(b, items, seed, thorough, report, count, count_hist)
         finally:
             await b.stop()
     _, exc = aio.run(main(), timeout=None)
